@@ -28,12 +28,16 @@ PROP = dict(
         quick=[
             job("contractcourt", "^TestVerifC12Decision$", ["TestVerifC12Decision"], 2500, shards=4),
             job("contractcourt", "^TestVerifC12Resolution$", ["TestVerifC12Resolution"], 2500, shards=4),
+            job("contractcourt", "^TestVerifC12Repro", ["TestVerifC12ReproDustAfterBroadcastLocal",
+                "TestVerifC12ReproDustAfterBroadcastRemote", "TestVerifC12ReproDustBitMapOrder"], 1, shards=1, v=True),
         ],
         thorough=[
             job("contractcourt", "^TestVerifC12Decision$", ["TestVerifC12Decision"], 30000, shards=8,
                 timeout=900),
             job("contractcourt", "^TestVerifC12Resolution$", ["TestVerifC12Resolution"], 30000, shards=8,
                 timeout=900),
+            job("contractcourt", "^TestVerifC12Repro", ["TestVerifC12ReproDustAfterBroadcastLocal",
+                "TestVerifC12ReproDustAfterBroadcastRemote", "TestVerifC12ReproDustBitMapOrder"], 1, shards=1, v=True),
         ],
     ),
 )
